@@ -99,13 +99,20 @@ def ob_direct_finalization(run, oid):
             # must not be reached when the old status was already Finalized/ImplicitlyFinalized (no double report)
             bad = [a for a in atoms if a[0] == "variant" and (a[1][1] & {"Finalized", "ImplicitlyFinalized"})]
             o.check(not bad, key + "|fast", "fast-final path (not taken when the slot was already finalized)", c.span, {"guards": G.atoms_show(atoms)})
-            # and paths where old is Finalized return before
+            rec = [lambda a: a[0] == "lt" and a[2] is False and any(K.mentions_field(x, "first_unpruned_slot", "FinalityTracker") for x in a[1]),
+                   lambda a: a[0] in ("is_some", "variant") and K.mentions_call(a[1][0], "BTreeMap::insert")]
+            extra = D.extra_guards(prog, c.body, c.bb, rec)
+            o.check(not extra, key + "|no-extra-condition", "no further condition delays the fast finalization report", c.span, {"extra": G.atoms_show(extra)})
             continue
         if fn not in want:
             o.fail(key + "|caller", "handle_finalized_block called from unexpected function %s" % fn, c.span)
             continue
         ok = any(a[0] == "variant" and a[1][1] == frozenset([want[fn]]) for a in atoms)
         o.check(ok, key + "|old=%s" % want[fn], "%s finalizes only when the displaced status is %s" % (fn, want[fn]), c.span, {"guards": G.atoms_show(atoms)})
+        rec = [lambda a: a[0] == "lt" and a[2] is False and any(K.mentions_field(x, "first_unpruned_slot", "FinalityTracker") for x in a[1]),
+               lambda a: a[0] in ("is_some", "variant") and K.mentions_call(a[1][0], "BTreeMap::insert")]
+        extra = D.extra_guards(prog, c.body, c.bb, rec)
+        o.check(not extra, key + "|no-extra-condition", "no further condition delays the finalization report", c.span, {"extra": G.atoms_show(extra)})
     # mark_fast_finalized: already-finalized arm returns without event
     b = prog.body(FT + "::mark_fast_finalized")
     if b is None:
